@@ -116,4 +116,10 @@ def isOk : StepOutcome → Bool
 
 def allOk (l : List StepOutcome) : Bool := l.all isOk
 
+/-- leaf functions invoked by `Combine(Combine(g₁…), Combine(g₂…), …)`: a group contributes the leaves it ran, and the
+    outer loop stops after the first group that failed -/
+def nestedRan : List (List StepOutcome) → Nat
+  | [] => 0
+  | g :: rest => if isOk (combine g) then combineRan g + nestedRan rest else combineRan g
+
 end Nv.C18
